@@ -140,6 +140,13 @@ class Program:
                 modname = modname[: -len(".__init__")]
             mi = ModuleInfo(modname, path, rel, src, tree)
             self.modules[modname] = mi
+        # a pure rename of a private method/attribute is read under the name the rules use
+        from . import renames
+
+        self.renames: Dict[str, str] = renames.canonicalise(
+            {mi.relpath: mi.tree for mi in self.modules.values()}
+        )
+        for mi in self.modules.values():
             self._index_module(mi)
         if self._dups:
             raise AnalysisError(
